@@ -5,7 +5,7 @@ Open Scope Z_scope.
 
 (* Model/Init.v is Circuit.init_sblock, the three start-up phases with _run_tasks and the early
    initialisation by a pending event, for ANY list of blocks (any combination of sources, any
-   acyclic init-time event topology, any creation order - the list order).  About every run of it: *)
+   init-time event topology (cycles included: recursive event() calls are refused), any creation order - the list order).  About every run of it: *)
 
 (* each sequential block runs restore / init_regular / init_from_value at most once each and in
    this order, whatever events arrive while it or another block is being initialised
@@ -28,12 +28,9 @@ Proof. exact init_good. Qed.
 (* an event that arrives before a block finished its synchronous steps makes those steps run
    first: the handler is entered only with all steps completed (or the start-up already failed) *)
 Theorem C05_event_runs_sync_steps_first : forall f T s b,
-  ierr s = false -> 0 <= steps s b < 2 ->
-  let s1 := init_sblock f T s b true in
-  event_put (S f) T s b = (if ierr s1 then s1 else
-                            let s2 := add_log s1 (CHandler b) in
-                            if is_handler_sets (spec_of T b) then set_output f T s2 b else s2)
-  /\ (ierr s1 = false -> steps s1 b = 2).
+  halt s = false -> active s b = false -> 0 <= steps s b < 2 ->
+  let r := init_sblock f T (set_active (set_active s b true) b false) b true in
+  halt r = false -> steps r b = 2.
 Proof. exact event_runs_sync_steps_first. Qed.
 
 (* the asynchronous routine: only for blocks still uninitialised, only with a positive
